@@ -40,6 +40,7 @@ func runC02(c *Ctx) {
 	c06Lines(c, "C02-R10")
 	c02WholeLines(c)
 	c02DerivedFromContent(c)
+	c02Recursion(c)
 	c02EmptyReducers(c)
 	c02OptionalPointers(c)
 	c02MustCompile(c)
@@ -684,7 +685,6 @@ func c02MustCompile(c *Ctx) {
 	}
 }
 
-
 // c02AssertIdiom recognises the repository's idioms that establish the
 // dynamic type before a single-value assertion.
 func c02AssertIdiom(p *Prog, fi *FuncInfo, pm map[ast.Node]ast.Node, ta *ast.TypeAssertExpr) string {
@@ -1145,4 +1145,230 @@ func c02DerivedFromContent(c *Ctx) {
 	}
 	c.Check(bad == "", "C02-R10", "ConsoleReporter.Submit:nothing derived from a file's content outlives it", fi.Decl.Pos(), itoa(len(derived))+" derived variable(s)",
 		"`"+bad+"` is computed from the file content but declared outside the per-path reset and not reset with it: for the next file the stale value is used — lines of the previous file are printed, or indexed with this file's line numbers (index out of range)")
+}
+
+// c02Recursion: every function of the module that can call itself (directly or
+// through other module functions, depth 3) and is not a test helper has a
+// termination argument visible in its shape:
+//
+//	(a) structural descent: each recursive call passes, for a parameter of tree
+//	    type (yaml / PromQL / template AST node, utils.Source), something
+//	    obtained from that parameter (a field, an element, a call on it) — the
+//	    trees come out of parsers and are finite and acyclic;
+//	(b) a visited set: a map parameter that is tested before and written on the
+//	    way to the recursive call;
+//	(c) a depth bound: an integer parameter that is passed on incremented /
+//	    decremented and compared somewhere in the body.
+//
+// A recursion over a graph built from user input (variable aliases, rule
+// dependencies) without (b) or (c) is a stack overflow waiting for a cycle.
+func c02Recursion(c *Ctx) {
+	p := c.P
+	treeTypes := []string{"gopkg.in/yaml.v3.Node", "text/template/parse.", "github.com/prometheus/prometheus/promql/parser.", "internal/parser/utils.Source", "internal/parser.YamlNode", "internal/parser.PromQLNode"}
+	// confirmed by reading, one symbol each
+	justified := map[string]string{
+		"internal/parser.Parser.parseNode":       "besides the structural descent it re-parses a block scalar's value as YAML; the guard `node.Value != strings.Join(contentLines, \"\\n\")` makes the embedded document a strict part of the enclosing one",
+		"internal/parser/utils.RemoveConditions": "recurses on the text of strict sub-expressions (n.Expr, n.LHS, n.RHS, n.Args[i]) of the expression parsed from its argument",
+		"internal/promapi.MergeRanges":           "recurses on one fingerprint's list only while the previous call reports a merge (ok), and every merge shortens the list",
+	}
+	isTree := func(t types.Type) bool {
+		q := typeQName(t)
+		if q == "" {
+			if it, ok := t.Underlying().(*types.Interface); ok && it != nil {
+				q = t.String()
+			}
+		}
+		for _, tt := range treeTypes {
+			if strings.HasPrefix(q, tt) || strings.Contains(t.String(), tt) {
+				return true
+			}
+		}
+		return false
+	}
+	// direct callees within the module
+	callees := map[*FuncInfo][]*ast.CallExpr{}
+	calleeOf := map[*ast.CallExpr]*FuncInfo{}
+	for _, fi := range p.AllFuncs() {
+		if fi.Decl.Body == nil || p.IsTestFile(fi.Decl.Pos()) {
+			continue
+		}
+		info := fi.Pkg.TypesInfo
+		ast.Inspect(fi.Decl.Body, func(n ast.Node) bool {
+			if call, ok := n.(*ast.CallExpr); ok {
+				if fn := Callee(info, call); fn != nil {
+					if cf := p.FuncOf(fn); cf != nil {
+						callees[fi] = append(callees[fi], call)
+						calleeOf[call] = cf
+					}
+				}
+			}
+			return true
+		})
+	}
+	n := 0
+	for _, fi := range p.AllFuncs() {
+		if fi.Decl.Body == nil || p.IsTestFile(fi.Decl.Pos()) {
+			continue
+		}
+		// direct self calls only (mutual recursion in this module goes through
+		// walkNode-style dispatchers that are themselves directly recursive)
+		var self []*ast.CallExpr
+		for _, call := range callees[fi] {
+			if calleeOf[call] == fi {
+				self = append(self, call)
+			}
+		}
+		if len(self) == 0 {
+			continue
+		}
+		n++
+		if why, ok := justified[fi.Name]; ok {
+			c.Ok("C02-R5", fi.Name+":recursion has a visible termination argument (justified)", fi.Decl.Pos(), why)
+			continue
+		}
+		info := fi.Pkg.TypesInfo
+		sig := fi.Obj.Type().(*types.Signature)
+		pm := parentMap(fi.Decl.Body)
+		why := ""
+		okAll := true
+		for _, call := range self {
+			ok := false
+			for i := 0; i < sig.Params().Len() && i < len(call.Args); i++ {
+				par := sig.Params().At(i)
+				arg := call.Args[i]
+				switch {
+				case isTree(par.Type()):
+					// (a) the argument is derived from the parameter (or from a range /
+					// type-switch variable derived from it) and is not the parameter itself
+					if !isObj(info, arg, par) && derivedFrom(info, fi, arg, par, 0) {
+						ok = true
+						why = "structural descent on " + paramTypeKey(par.Type())
+					}
+				}
+				if _, isMap := par.Type().Underlying().(*types.Map); isMap && isObj(info, arg, par) {
+					// (b) tested before and written before the call
+					tested, written := false, false
+					for _, a := range lexicalGuards(pm, call, fi.Decl.Body) {
+						if mentionsObj(info, a.E, par) {
+							tested = true
+						}
+					}
+					ast.Inspect(fi.Decl.Body, func(m ast.Node) bool {
+						switch x := m.(type) {
+						case *ast.AssignStmt:
+							for _, l := range x.Lhs {
+								if ix, ok := l.(*ast.IndexExpr); ok && isObj(info, ix.X, par) {
+									written = true
+								}
+							}
+						case *ast.IfStmt:
+							if x.Pos() < call.Pos() && mentionsObj(info, x.Cond, par) && containsBranch(x.Body) {
+								tested = true
+							}
+							if x.Init != nil && x.Pos() < call.Pos() {
+								if as, ok := x.Init.(*ast.AssignStmt); ok && len(as.Rhs) == 1 && mentionsObj(info, as.Rhs[0], par) && containsBranch(x.Body) {
+									tested = true
+								}
+							}
+						}
+						return true
+					})
+					if tested && written {
+						ok = true
+						why = "visited set"
+					}
+				}
+				if b, isBasic := par.Type().Underlying().(*types.Basic); isBasic && b.Info()&types.IsInteger != 0 {
+					// (c) depth passed on changed, and compared in the body
+					if be, isBin := ast.Unparen(arg).(*ast.BinaryExpr); isBin && (be.Op == token.ADD || be.Op == token.SUB) && mentionsObj(info, be, par) {
+						cmp := false
+						ast.Inspect(fi.Decl.Body, func(m ast.Node) bool {
+							if b2, ok := m.(*ast.BinaryExpr); ok && mentionsObj(info, b2, par) {
+								switch b2.Op {
+								case token.LSS, token.LEQ, token.GTR, token.GEQ, token.EQL:
+									cmp = true
+								}
+							}
+							return true
+						})
+						if cmp {
+							ok = true
+							why = "depth bound"
+						}
+					}
+				}
+			}
+			// methods whose receiver is the tree: x.f() called on something derived from the receiver
+			if !ok && fi.Decl.Recv != nil && len(fi.Decl.Recv.List) == 1 && len(fi.Decl.Recv.List[0].Names) == 1 {
+				recv := info.Defs[fi.Decl.Recv.List[0].Names[0]]
+				if sel, isSel := call.Fun.(*ast.SelectorExpr); isSel && recv != nil && isTree(recv.Type()) && !isObj(info, sel.X, recv) && derivedFrom(info, fi, sel.X, recv, 0) {
+					ok = true
+					why = "structural descent on the receiver"
+				}
+			}
+			if !ok {
+				okAll = false
+			}
+		}
+		c.Check(okAll, "C02-R5", fi.Name+":recursion has a visible termination argument", fi.Decl.Pos(), why,
+			"the function calls itself and none of the accepted termination arguments applies (structural descent on a parser tree, a visited set, a depth bound): if its argument comes from a graph built out of user input, a cycle overflows the stack — a fatal error no recover() catches")
+	}
+	c.Check(n >= 5, "C02-R5", "recursive functions enumerated", token.NoPos, itoa(n), "implausibly few self-recursive functions ("+itoa(n)+")")
+}
+
+// derivedFrom: e is built from obj — mentions obj directly, or mentions a local
+// that is defined (assignment, range, type switch) from something derived from obj.
+func derivedFrom(info *types.Info, fi *FuncInfo, e ast.Expr, obj types.Object, depth int) bool {
+	if depth > 4 {
+		return false
+	}
+	if mentionsObj(info, e, obj) {
+		return true
+	}
+	found := false
+	ast.Inspect(e, func(n ast.Node) bool {
+		id, ok := n.(*ast.Ident)
+		if !ok || found {
+			return true
+		}
+		v, ok := info.Uses[id].(*types.Var)
+		if !ok || v.IsField() || v == obj {
+			return true
+		}
+		// definitions of v inside the function
+		ast.Inspect(fi.Decl.Body, func(m ast.Node) bool {
+			switch x := m.(type) {
+			case *ast.AssignStmt:
+				for i, l := range x.Lhs {
+					if lid, ok := l.(*ast.Ident); ok && (info.Defs[lid] == v || info.Uses[lid] == v) {
+						r := x.Rhs[0]
+						if i < len(x.Rhs) {
+							r = x.Rhs[i]
+						}
+						if derivedFrom(info, fi, r, obj, depth+1) {
+							found = true
+						}
+					}
+				}
+			case *ast.RangeStmt:
+				for _, l := range []ast.Expr{x.Key, x.Value} {
+					if lid, ok := l.(*ast.Ident); ok && info.Defs[lid] == v && derivedFrom(info, fi, x.X, obj, depth+1) {
+						found = true
+					}
+				}
+			case *ast.TypeSwitchStmt:
+				if as, ok := x.Assign.(*ast.AssignStmt); ok && len(as.Rhs) == 1 {
+					// the symbolic variable: any implicit object of a clause
+					for _, cl := range x.Body.List {
+						if info.Implicits[cl] == types.Object(v) && derivedFrom(info, fi, as.Rhs[0], obj, depth+1) {
+							found = true
+						}
+					}
+				}
+			}
+			return true
+		})
+		return true
+	})
+	return found
 }
